@@ -306,6 +306,21 @@ def run(ctx, extra_cases=()):
     ctx.cov["classes"] = dist_tag
     ctx.cov["outcomes"] = st
     ctx.cov["plu_success_with_odd_permutation"] = swaps
+    br = {"plu_no_exchange": 0, "plu_exchange": 0, "plu_sgndet_-1": 0, "plu_sgndet_+1": 0, "ldl_sgndet_-1": 0,
+          "ldl_sgndet_+1": 0, "threshold_class_success": 0, "threshold_class_failure": 0}
+    for i, c in enumerate(cases[:len(m_lines)]):
+        thr = "threshold" in c.tag
+        for l in c_lines[i]:
+            w = l.split()
+            if w[0] == "100" and w[1] == "0":
+                br["plu_no_exchange" if [int(x) for x in w[3:3 + c.n]] == list(range(c.n)) else "plu_exchange"] += 1
+            elif w[0] == "113":
+                br["plu_sgndet_%+d" % int(w[1])] = br.get("plu_sgndet_%+d" % int(w[1]), 0) + 1
+            elif w[0] == "210":
+                br["ldl_sgndet_%+d" % int(w[1])] = br.get("ldl_sgndet_%+d" % int(w[1]), 0) + 1
+            if thr and w[0] in ("100", "200", "300"):
+                br["threshold_class_success" if w[1] == "0" else "threshold_class_failure"] += 1
+    ctx.cov["branch_counts"] = br
     ctx.cov["measured_error_over_bound"] = {k: round(v, 4) for k, v in sorted(ratios.items())}
     ctx.cov["rounding_note"] = ("the componentwise rounding bounds of the property are MEASURED by the exact-rational oracle on "
                                 "the C output (max observed error / textbook bound above, must stay <= 1); they are not proved. "
